@@ -63,6 +63,8 @@ pub fn hint_of(v: Option<&Value>) -> Option<(usize, Option<usize>)> {
         -2 => Some(usize::MAX),
         -3 => Some(usize::MAX / 2),
         -4 => Some(1usize << 16),
+        -5 => Some(usize::MAX / 4),
+        -6 => Some(1usize << 40),
         x => Some(x as usize),
     };
     Some((lo, hi))
@@ -573,6 +575,7 @@ fn run<T: QApi>(q: &mut T, op: &Value, cx: &mut Ctx, ev: &mut Map<String, Value>
             ev.insert("k".into(), json!(k));
             ev.insert("forget".into(), json!(forget));
             ev.insert("n0".into(), json!(q.len()));
+            ev.insert("ref".into(), json!(unfueled(|| q.ref_order(it))));
             cx.scratch.clear();
             CMPS.with(|c| c.set(0));
             {
@@ -997,6 +1000,7 @@ impl<W: Write> Interp<W> {
                 ev.insert("k".into(), json!(k));
                 let q = self.qs.get(&qid).expect("harness: missing queue");
                 ev.insert("n0".into(), json!(on!(q, x => x.len())));
+                ev.insert("ref".into(), json!(on!(q, x => x.ref_order(&it))));
                 let mut scratch = vec![];
                 let r = catch_unwind(AssertUnwindSafe(|| {
                     let c = q.clone();
@@ -1073,6 +1077,18 @@ impl<W: Write> Interp<W> {
             for cls in classes.iter() {
                 for k in 0..=maxk {
                     self.exec(&json!({"op": "clone", "q": 1, "src": 0}));
+                    if let Some(ob) = op.get("obuild").and_then(|v| v.as_array()) {
+                        // a second queue (id 3) for two-queue operations, rebuilt before every attempt
+                        if self.qs.contains_key(&3) {
+                            self.exec(&json!({"op": "drop", "q": 3}));
+                        }
+                        self.exec(&json!({"op": "new", "q": 3}));
+                        for o in ob {
+                            let mut o = o.clone();
+                            o["q"] = json!(3);
+                            self.exec(&o);
+                        }
+                    }
                     let mut fop = op.clone();
                     fop["q"] = json!(1);
                     fop["fault"] = json!({ cls.as_str(): k });
